@@ -74,15 +74,15 @@ def gen_bar(rng, cid, tier):
 
 
 EXPLORE = [
-    (["sem 0", "thread w2/0", "thread w1/0", "thread s"], 1500, 25000),            # the D7 shape
-    (["sem 0", "thread w1/1", "thread w1/0", "thread s s"], 1000, 25000),
-    (["sem 1", "thread w2/0 s", "thread a1/0 s2", "thread w1/0"], 0, 25000),
-    (["barrier mutex 2 2"], 1000, 25000),
-    (["barrier mutex 3 2"], 1000, 25000),
-    (["barrier spin 2 2"], 1000, 25000),
-    (["barrier spiny 2 2"], 1000, 25000),
-    (["barrier spin 3 1"], 0, 25000),
-    (["barrier mutex 2 4"], 0, 25000),
+    (["sem 0", "thread w2/0", "thread w1/0", "thread s"], 1500, 12000),            # the D7 shape
+    (["sem 0", "thread w1/1", "thread w1/0", "thread s s"], 1000, 12000),
+    (["sem 1", "thread w2/0 s", "thread a1/0 s2", "thread w1/0"], 0, 12000),
+    (["barrier mutex 2 2"], 1000, 12000),
+    (["barrier mutex 3 2"], 1000, 12000),
+    (["barrier spin 2 2"], 1000, 12000),
+    (["barrier spiny 2 2"], 1000, 12000),
+    (["barrier spin 3 1"], 0, 12000),
+    (["barrier mutex 2 4"], 0, 12000),
 ]
 
 
